@@ -1,6 +1,6 @@
 //! Bit-precise validation (Kani / CBMC, loop-free harnesses over full-domain symbolic inputs => complete, not bounded)
 //! of those float axioms of /verif/contracts/prelude_float.rs that CBMC can decide. Each harness states one axiom on
-//! REAL f64 operations. Axioms not covered here (ax_powf, ax_score_below_max, exactness of products) stay assumed.
+//! REAL f64 operations. Axioms not covered here (ax_powf, ax_score_below_max for scores with a powf term, "zero only if a factor is zero" for non-integer factors) stay assumed.
 
 #[cfg(kani)]
 mod float_axioms {
